@@ -28,6 +28,17 @@ Added probe families (helpers in harness/s5_c13.py):
    scalar descriptions in the signature now include signedness.  The existing order / split / option-history probes then show whether a
    type depends on which unrelated definition was loaded first.
  * `order+split` mutants: a dependency-respecting permutation whose text is split over 2..4 load() calls.
+ * declarator forms and exact names (round 3): half of the struct/union items end in declarators — `typedef struct tag {...} a, b;`,
+   `typedef struct {...} a;`, `struct tag {...} a;`, `struct {...} a, b;` (anonymous and tagged, one name or a name list).  The baseline
+   text is now the compact spelling (nothing before `;` and `,`), so every mutant family also inserts blanks / newlines / comments between
+   a declarator name and the terminating `;` and between the names and commas of a name list (feature `separator:declarator-name|...`).
+   The signature contains every structure's / enum's `__name__` exactly, and the registered names (keys of cs.typedefs without the
+   built-in ones, keys of cs.consts) are compared exactly as spelt in the tables — nothing is stripped on the harness side.
+ * re-declaration of names whose current target has no positive byte size (round 3): the environments also bind names to zero-sized
+   targets (empty struct / union, tagged or anonymous; `typedef void V0`; `typedef T P0[0]`) and dynamically sized ones (structures with
+   member-sized, null-terminated or LEB128 members; `typedef uleb128 L0`; `typedef char T0[]`) and aliases of them; `void` and `uleb128`
+   joined the built-in names; these names are re-declared (same and different target) through every text form and — new form
+   `add_type` — through `cs.add_type(name, "other name")` / `cs.add_type(name, <type object>)`.
 """
 from __future__ import annotations
 
@@ -176,27 +187,36 @@ def gen_items(rnd, n, prefix="", multi=True, twins=None):
                     ft, fu = field_tokens(f"f{i}", types)
                     body += ft
                     uses |= fu
-            if rnd.random() < 0.3:
-                aliases = [tname() for _ in range(rnd.choice([1, 1, 2, 3]) if multi else 1)]
-                toks = ["typedef", kind, nm, "{"] + body + ["}"]
+            form = rnd.random()
+            if form < 0.5:
+                # declarator forms: typedef struct tag {...} a, b;  typedef struct {...} a, b;  struct tag {...} a, b;  struct {...} a, b;
+                aliases = [tname() for _ in range(rnd.choice([1, 1, 1, 2, 3]) if multi else 1)]
+                anon = rnd.random() < 0.5
+                head = (["typedef"] if rnd.random() < 0.55 else []) + [kind] + ([] if anon else [nm])
+                toks = head + ["{"] + body + ["}"]
                 for a in aliases:
                     toks += [a, ","]
                 toks[-1] = ";"
-                items.append(Item(toks, {nm, *aliases}, uses))
-                types += [nm, *aliases]
+                defined = list(aliases) if anon else [nm, *aliases]
+                items.append(Item(toks, set(defined), uses))
+                types += defined
             else:
                 items.append(Item([kind, nm, "{"] + body + ["}", ";"], {nm}, uses))
                 types.append(nm)
     return items
 
 
-def join(tokens, rnd=None, enum=False, allow_f20=False, sepgen=None, only=None):
-    """baseline (rnd None): single blanks; mutant: random separators from the lists above, or — sepgen — from the richer
-    comment family of s5_c13.rich_sep; only = k: the k-th breakable boundary alone gets a random separator (the others a blank).
-    Inside an enum body a newline between a member's name, '=' and value is finding F20: only produced when allow_f20."""
+def join(tokens, rnd=None, enum=False, allow_f20=False, sepgen=None, only=None, hits=None):
+    """baseline (rnd None): single blanks, and nothing before `;` and `,` (the usual compact spelling `} name;`, `a, b;`, so that a
+    separator in front of the terminating `;` / between the names of a name list is an insertion the mutants make); mutant: random
+    separators from the lists above, or — sepgen — from the richer comment family of s5_c13.rich_sep; only = k: the k-th breakable
+    boundary alone gets a random separator (the others stay as in the baseline).
+    Inside an enum body a newline between a member's name, '=' and value is finding F20: only produced when allow_f20.
+    hits: a list that receives a mark for every non-empty separator put between a struct/union declarator name and `;` / `,`."""
     out = []
     inbody = False
     b = -1
+    last_close = max((i for i, t in enumerate(tokens) if t == "}"), default=len(tokens))
     for i, t in enumerate(tokens):
         s = t[0] if isinstance(t, tuple) else t
         out.append(s)
@@ -211,17 +231,19 @@ def join(tokens, rnd=None, enum=False, allow_f20=False, sepgen=None, only=None):
             if ns == "}":
                 inbody = False
             if rnd is None or (only is not None and only != b):
-                out.append(" ")
+                out.append("" if ns in (";", ",") else " ")
             else:
                 need = (s[-1].isalnum() or s[-1] == "_") and (ns[0].isalnum() or ns[0] == "_")
                 nonl = bool(enum and inbody and not allow_f20 and s not in ("{", ",") and ns not in ("}", ","))
                 if sepgen is not None:
                     out.append(sepgen(rnd, need, nonl))
-                    continue
-                choices = SEPS_REQ if need else SEPS_OPT
-                if nonl:
-                    choices = [c for c in choices if "\n" not in c]
-                out.append(rnd.choice(choices))
+                else:
+                    choices = SEPS_REQ if need else SEPS_OPT
+                    if nonl:
+                        choices = [c for c in choices if "\n" not in c]
+                    out.append(rnd.choice(choices))
+                if hits is not None and out[-1] and i > last_close and ns in (";", ","):
+                    hits.append("declarator-name|" + ns + (":comment" if "/" in out[-1] else ":space"))
     return "".join(out)
 
 
@@ -230,7 +252,7 @@ def boundaries(tokens) -> int:
     return sum(1 for i, t in enumerate(tokens[:-1]) if not (isinstance(t, tuple) and t[0].endswith("\n")))
 
 
-def render(items, rnd=None, f20=False, rich=False, one=False):
+def render(items, rnd=None, f20=False, rich=False, one=False, hits=None):
     """rich: separators and comments from s5_c13 (comment bodies with //, /*, quotes, stars, slashes, newlines; adjacent
     comments; a comment before the first and after the last token); one: a single rich separator at one token boundary."""
     if rnd is None:
@@ -240,7 +262,7 @@ def render(items, rnd=None, f20=False, rich=False, one=False):
         k = rnd.randrange(max(1, sum(tot)))
         parts = []
         for it, n in zip(items, tot):
-            parts.append(join(it.tokens, rnd, enum=it.enum, sepgen=s5.rich_sep, only=k if 0 <= k < n else -1))
+            parts.append(join(it.tokens, rnd, enum=it.enum, sepgen=s5.rich_sep, only=k if 0 <= k < n else -1, hits=hits))
             k -= n
         return "\n".join(parts) + "\n"
     sepgen = s5.rich_sep if rich else None
@@ -248,7 +270,7 @@ def render(items, rnd=None, f20=False, rich=False, one=False):
     if rich and rnd.random() < 0.5:
         out.append(rnd.choice([s5.block_comment(rnd), s5.line_comment(rnd), s5.block_comment(rnd) + s5.line_comment(rnd)]))
     for it in items:
-        p = join(it.tokens, rnd, enum=it.enum, allow_f20=f20, sepgen=sepgen)
+        p = join(it.tokens, rnd, enum=it.enum, allow_f20=f20, sepgen=sepgen, hits=hits)
         out.append(p)
         if rich:
             out.append(s5.rich_between(rnd) if not p.endswith("\n") else rnd.choice(["", "\n", s5.block_comment(rnd) + "\n", s5.line_comment(rnd)]))
@@ -265,10 +287,10 @@ def describe_type(T, dc, depth=0):
         return ("alias-string", T)
     name = T.__name__
     if issubclass(T, dc.Structure):
-        return ("struct" if not issubclass(T, dc.Union) else "union", T.size, T.alignment,
+        return ("struct" if not issubclass(T, dc.Union) else "union", name, T.size, T.alignment,
                 tuple((f.name, describe_type(f.type, dc, depth + 1) if depth < 3 else f.type.__name__, f.offset, f.bits) for f in T.__fields__))
     if issubclass(T, (dc.Enum, dc.Flag)):
-        return ("flag" if issubclass(T, dc.Flag) else "enum", T.type.__name__, tuple((k, int(v.value)) for k, v in T.__members__.items()))
+        return ("flag" if issubclass(T, dc.Flag) else "enum", name, T.type.__name__, tuple((k, int(v.value)) for k, v in T.__members__.items()))
     if issubclass(T, dc.Pointer):
         return ("ptr", describe_type(T.type, dc, depth + 1) if depth < 3 else T.type.__name__)
     from dissect.cstruct.types.base import BaseArray
@@ -311,6 +333,12 @@ def signature(cs, names, probe, dc):
         sig[n] = (d, v)
     same = tuple(sorted((a, b) for a, b in itertools.combinations(sorted(objs), 2) if objs[a] is objs[b]))
     return normalise((sorted(sig.items()), same))
+
+
+def user_names(cs, dc) -> tuple:
+    """the names a text registered, exactly as they are spelt in the tables (type names without the built-in ones; constants)"""
+    builtin = dc.cstruct().typedefs
+    return tuple(sorted(k for k in cs.typedefs if k not in builtin)), tuple(sorted(cs.consts))
 
 
 def toposort_variants(items, rnd, k):
@@ -361,6 +389,23 @@ def twin_features(items) -> list[str]:
     return sorted(out)
 
 
+def form_features(items) -> list[str]:
+    """which struct/union declaration forms a definition set contains (evidence bookkeeping)"""
+    out = set()
+    for it in items:
+        toks = [t[0] if isinstance(t, tuple) else t for t in it.tokens]
+        if "{" not in toks or it.enum:
+            continue
+        head = toks[: toks.index("{")]
+        if not head or head[-1] not in ("struct", "union") and (len(head) < 2 or head[-2] not in ("struct", "union")):
+            continue
+        last = len(toks) - 1 - toks[::-1].index("}")
+        n = sum(1 for t in toks[last + 1:] if t not in (",", ";"))
+        out.add("form:" + ("typedef-" if head[0] == "typedef" else "") + ("anonymous" if head[-1] in ("struct", "union") else "tagged") +
+                ("-no-declarator" if n == 0 else "-one-declarator" if n == 1 else "-name-list"))
+    return sorted(out)
+
+
 def describe_norm(dc):
     return lambda T: normalise(describe_type(T, dc))
 
@@ -389,7 +434,7 @@ def redeclaration_probes(res, viol, dc, rnd, n):
         for _ in range(6):
             k += 1
             text, form, X, expect, fresh = s5.gen_redeclaration(rnd, holder, dc, env_names, k)
-            same_text = rnd.random() < 0.4
+            same_text = rnd.random() < 0.4 and form != "add_type"
             popts = rnd.choice(s5.LOAD_OPTS)
             new_names = ([X] + fresh) if form in ("tag-body", "body-name", "body-names") else []
             data = {"family": "redeclare", "environment": env_loads, "redeclaration": text, "redeclaration_options": popts, "expect": expect,
@@ -398,6 +443,11 @@ def redeclaration_probes(res, viol, dc, rnd, n):
             res.feat(f"redeclare:{form}:{expect}" + (":same-text" if same_text else f":load#{len(env_loads) + 1}"))
             if X in s5.BUILTIN_NAMES:
                 res.feat("redeclare:built-in-name")
+            try:
+                size = holder.resolve(X).size
+                res.feat("redeclare:current-target:" + ("dynamic-size" if size is None else "zero-size" if size == 0 else "fixed-size") + ":" + expect)
+            except Exception:  # noqa: BLE001
+                pass
             problems, outcome = s5.eval_redeclaration(dc, describe, env_loads, text, popts, expect, names, new_names, same_text)
             res.feat("redeclare-outcome:" + outcome)
             for what in problems[:1]:
@@ -454,7 +504,10 @@ def run(env) -> Result:
                 "single-comment mutants); re-declaration probes (every declaration form x same/different target x same text / later load()); "
                 "load() option histories (independent definition sets with their own align=/compiled= options, shuffled, vs. a fresh instance each); "
                 "name twins in ~40 % of the sets: same local struct/union tag with different bodies in unrelated definitions (plain, pointer, fixed, "
-                "null-terminated, member-sized array members), int48 next to uint48; permutations split over several load() calls")
+                "null-terminated, member-sized array members), int48 next to uint48; permutations split over several load() calls; "
+                "struct/union declarator forms (typedef or not, tagged or anonymous, one name or a name list) with separators between declarator "
+                "name and ';' / ','; type __name__ and registered names compared exactly; re-declaration (text forms and cs.add_type) of names "
+                "bound to zero-sized (empty struct/union, void, T[0]) and dynamically sized (member-sized / null-terminated arrays, LEB128) targets")
     dc = impl.dc()
     rnd = mkrng(env["seed"], "c13")
     tier = env["tier"]
@@ -479,7 +532,10 @@ def run(env) -> Result:
             res.feat("baseline-rejected:" + type(e).__name__)
             continue
         base = signature(cs0, names, probe, dc)
+        base_names = user_names(cs0, dc)
         res.feat("items:" + str(len(items)))
+        for ft in form_features(items):
+            res.feat(ft)
         for ft in twin_features(items):
             res.feat(ft)
         # comment stripper correspondence (model)
@@ -492,10 +548,13 @@ def run(env) -> Result:
                 its = toposort_variants(items, rnd, 1)[0]
             f20 = kind == "layout" and mi == 1 and any(it.enum for it in its)
             rich = kind.endswith("rich")
+            hits = []
             if kind == "one-comment":
-                text = render(its, rnd, one=True)
+                text = render(its, rnd, one=True, hits=hits)
             else:
-                text = render(its, rnd if "layout" in kind else None, f20=f20, rich=rich)
+                text = render(its, rnd if "layout" in kind else None, f20=f20, rich=rich, hits=hits)
+            for ft in set(hits):
+                res.feat("separator:" + ft)
             cd = {"family": "layout", "baseline": base_text, "mutant": text, "mutation": kind + ("+enum-newlines" if f20 else ""),
                   "names": sorted(names), "probe": probe.hex()}
             res.count((base_text, text), len(items) >= 3)
@@ -520,10 +579,14 @@ def run(env) -> Result:
                 i = next((j for j in range(min(len(base), len(got))) if base[j] != got[j]), 0)
                 viol("inserting comments/whitespace or reordering independent definitions changed the resulting types",
                      dict(cd, baseline_sig=base[max(0, i - 150): i + 150], mutant_sig=got[max(0, i - 150): i + 150]), "F20" if f20 else None)
+            elif user_names(cs, dc) != base_names:
+                # the registered names, spelt exactly as in the tables (nothing is stripped on this side)
+                viol("inserting comments/whitespace or reordering independent definitions changed the registered names",
+                     dict(cd, baseline_names=base_names, mutant_names=user_names(cs, dc)), "F20" if f20 else None)
             if "layout" in kind or kind == "one-comment":
                 lines.append(sx([A("stripcomments"), text]))
                 metas.append(("strip", text, dc.parser.TokenParser._remove_comments(text)))
-    redeclaration_probes(res, viol, dc, mkrng(env["seed"], "c13-redeclare"), 150 if tier == "quick" else 2400)
+    redeclaration_probes(res, viol, dc, mkrng(env["seed"], "c13-redeclare"), 240 if tier == "quick" else 3000)
     option_history_probes(res, viol, dc, mkrng(env["seed"], "c13-options"), 40 if tier == "quick" else 600)
     # ---- alias laws
     cs = dc.cstruct()
@@ -538,7 +601,12 @@ def run(env) -> Result:
     if not (cs.A1 is cs.uint32 and cs.A3 is cs.uint32 and cs.S2 is cs.S and cs.Q is cs._Q and cs.S.fields["x"].type is cs.uint32):
         viol("typedef chain / struct typedef names do not resolve to the very same type", {"case": "alias-chain"})
     # re-declaring: accepted for the same target, refused for another
-    for text, ok in (("typedef uint32 A1;", True), ("typedef DWORD A1;", True), ("typedef uint16 A1;", False), ("typedef S S2;", True)):
+    # (also for names whose current target is zero-sized or dynamically sized)
+    cs.load("struct ZE { }; typedef void VU; typedef uint8 PZ[0]; struct DY { uint8 n; char d[n]; }; typedef uleb128 LB; typedef ZE ZE2; typedef DY DY2;")
+    for text, ok in (("typedef uint32 A1;", True), ("typedef DWORD A1;", True), ("typedef uint16 A1;", False), ("typedef S S2;", True),
+                     ("typedef ZE ZE2;", True), ("typedef uint16 ZE2;", False), ("typedef void VU;", True), ("typedef uint8 VU;", False),
+                     ("typedef S PZ;", False), ("typedef DY DY2;", True), ("typedef uint8 DY2;", False), ("typedef uleb128 LB;", True),
+                     ("typedef uint8 LB;", False), ("struct ZE { uint8 a; };", False), ("typedef struct { uint8 a; } DY;", False)):
         res.count(("redeclare", text))
         try:
             cs.load(text)
@@ -613,6 +681,9 @@ def replay(body) -> int:
         got = signature(cs, names, probe, dc)
         if got != base:
             print("still fails: the signatures differ")
+            return 1
+        if user_names(cs, dc) != user_names(cs0, dc):
+            print("still fails: the registered names differ:", user_names(cs0, dc), "vs", user_names(cs, dc))
             return 1
     elif fam == "redeclare":
         problems, outcome = s5.eval_redeclaration(dc, describe_norm(dc), case["environment"], case["redeclaration"], case["redeclaration_options"],
